@@ -187,11 +187,17 @@ func c12Crosstalk(name, transport string, nClients, maxRead int) *e2x.Scenario {
 
 // c12Pipeline: one TCP client writes k queries back to back in one segment and reads k replies; the server handles
 // them sequentially on the one connection: replies come back in order, each for its own request.
-func c12Pipeline(name string, k, maxRead int) *e2x.Scenario {
+func c12Pipeline(name string, k, maxRead int) *e2x.Scenario { return c12PipelineA(name, k, maxRead, false) }
+
+// c12PipelineA: async = the handler hands its reply to a goroutine of its own and returns (what a forwarding
+// server does), so the connection's read loop takes the next query while earlier replies are still to be written;
+// replies may then arrive in any order, each must be the one written for its query.
+func c12PipelineA(name string, k, maxRead int, async bool) *e2x.Scenario {
 	return &e2x.Scenario{Name: name, New: func() (func(), func(*vsched.Exec) (string, map[string]string)) {
 		var got []string
 		var want []string
 		bad := ""
+		pending := 0
 		body := func() {
 			ln := simnet.NewListener("ln")
 			srv := &dns.Server{Listener: ln}
@@ -206,6 +212,17 @@ func c12Pipeline(name string, k, maxRead int) *e2x.Scenario {
 				m := new(dns.Msg)
 				m.SetReply(q)
 				m.Answer = []dns.RR{&dns.TXT{Hdr: dns.RR_Header{Name: q.Question[0].Name, Rrtype: dns.TypeTXT, Class: 1}, Txt: []string{"saw:" + tagOf(before)}}}
+				if async {
+					pending++
+					vsched.Go(func() {
+						if err := w.WriteMsg(m); err != nil {
+							bad = "handler could not write: " + err.Error()
+						}
+						vsched.Point("reply-done", nil)
+						pending--
+					})
+					return
+				}
 				if err := w.WriteMsg(m); err != nil {
 					bad = "handler could not write: " + err.Error()
 				}
@@ -261,7 +278,14 @@ func c12Pipeline(name string, k, maxRead int) *e2x.Scenario {
 			if bad != "" {
 				v["pipelining/"+strings.Fields(bad)[0]] = bad
 			}
-			if strings.Join(got, ";") != strings.Join(want, ";") {
+			if async {
+				a, b := append([]string(nil), got...), append([]string(nil), want...)
+				sort.Strings(a)
+				sort.Strings(b)
+				if strings.Join(a, ";") != strings.Join(b, ";") {
+					v["pipelining/async-replies"] = fmt.Sprintf("replies %v, want %v (in any order)", got, want)
+				}
+			} else if strings.Join(got, ";") != strings.Join(want, ";") {
 				v["pipelining/replies"] = fmt.Sprintf("replies %v, want %v (in order)", got, want)
 			}
 			return fmt.Sprint(len(got)), v
@@ -426,7 +450,9 @@ func c12Spaces(c *fw.Ctx) {
 		{c12Crosstalk("e2/crosstalk/tcp/2-clients", "tcp", 2, 0), 0, 0},
 		{c12Crosstalk("e2/crosstalk/pc/3-clients", "pc", 3, 0), 0, 0},
 		{c12Pipeline("e2/pipelining/tcp/3-queries-one-segment", 3, 0), 2, 5},   // b=5: 5.3 M, 56 s
-		{c12Pipeline("e2/pipelining/tcp/2-queries-5-octet-reads", 2, 5), 1, 3}, // b=3: 1.1 M, 13 s; b=4: 17.6 M, 196 s
+		{c12Pipeline("e2/pipelining/tcp/2-queries-5-octet-reads", 2, 5), 1, 3},
+		{c12PipelineA("e2/pipelining/tcp/2-queries-async-replies", 2, 0, true), 2, 3},
+		{c12PipelineA("e2/pipelining/tcp/3-queries-async-replies", 3, 0, true), 1, 2}, // b=3: 1.1 M, 13 s; b=4: 17.6 M, 196 s
 		{c12Crosstalk("e2/segmentation/tcp/1-octet-reads", "tcp", 1, 1), 1, 2}, // b=2: 4.3 M, 53 s
 		{c12Crosstalk("e2/segmentation/tcp/3-octet-reads", "tcp", 1, 3), 1, 2}, // b=2: 4.0 M, 44 s
 	}
